@@ -498,6 +498,12 @@ func (ex *Exec) chanClose(cv Value) {
 
 func (ex *Exec) selectOp(fr *Frame, x *ssa.Select) Value {
 	tt := ex.tt
+	// environment hook: other goroutines (event producers) may act before the select is evaluated
+	if ex.W.onSelect != nil && !ex.W.inOnSelect {
+		ex.W.inOnSelect = true
+		ex.callValue(nil, ex.W.onSelect, nil, nil)
+		ex.W.inOnSelect = false
+	}
 	// result tuple: (index int, recvOk bool, recv values...)
 	nrecv := 0
 	for _, st := range x.States {
@@ -518,7 +524,8 @@ func (ex *Exec) selectOp(fr *Frame, x *ssa.Select) Value {
 			ri++
 		}
 	}
-	// ready cases (deterministic engine: first ready case; the harness states that select priorities are outside the claim)
+	// ready cases: the first ready case, or (vx.NondetSelect) any ready case - Go picks uniformly at random
+	var ready []int
 	for i, st := range x.States {
 		c := ex.chanOf(ex.get(fr, st.Chan))
 		if c == nil {
@@ -529,22 +536,32 @@ func (ex *Exec) selectOp(fr *Frame, x *ssa.Select) Value {
 				panic(ex.goPanic("send on closed channel"))
 			}
 			if len(c.buf) < c.cap {
-				c.buf = append(c.buf, ex.get(fr, st.Send))
-				c.sends++
-				res.vs[0] = tt.BV(uint64(i), 64)
-				return res
+				ready = append(ready, i)
 			}
-		} else {
-			if len(c.buf) > 0 || c.closed {
-				v, ok := ex.chanRecv(ex.get(fr, st.Chan), false)
-				if ok {
-					res.vs[recvIdx[i]] = v
-				}
-				res.vs[0] = tt.BV(uint64(i), 64)
-				res.vs[1] = tt.Bool(ok)
-				return res
-			}
+		} else if len(c.buf) > 0 || c.closed {
+			ready = append(ready, i)
 		}
+	}
+	if len(ready) > 0 {
+		i := ready[0]
+		if ex.W.nondetSelect && len(ready) > 1 {
+			i = ready[ex.choose(len(ready), nil, "select-ready")]
+		}
+		st := x.States[i]
+		c := ex.chanOf(ex.get(fr, st.Chan))
+		if st.Dir == types.SendOnly {
+			c.buf = append(c.buf, ex.get(fr, st.Send))
+			c.sends++
+			res.vs[0] = tt.BV(uint64(i), 64)
+			return res
+		}
+		v, ok := ex.chanRecv(ex.get(fr, st.Chan), false)
+		if ok {
+			res.vs[recvIdx[i]] = v
+		}
+		res.vs[0] = tt.BV(uint64(i), 64)
+		res.vs[1] = tt.Bool(ok)
+		return res
 	}
 	if !x.Blocking {
 		return res // default case: index -1
